@@ -36,7 +36,11 @@ TraceStep ==
   /\ LET e == Rec[l + 1]
          S == Rec[l].post
          T == e.post
-     IN IF e.kind = "reset"
+     IN IF e.kind # "reset" /\ ~(SafeWorld(S) /\ SafeWorld(T))
+        THEN \* reserves beyond what TLC's integers can multiply: no verdict on this step
+             /\ aux' = aux /\ nviol' = nviol /\ keys' = keys
+             /\ hits' = Bump(hits, {"events", "unsafe_skipped"})
+        ELSE IF e.kind = "reset"
         THEN /\ aux' = AuxInit(T)
              /\ hits' = Bump(hits, {"events", "scenarios"})
              /\ nviol' = nviol
